@@ -222,11 +222,14 @@ impl Buildinfo {
 
     /// Set the build environment
     pub fn set_environment(&mut self, env: std::collections::HashMap<String, String>) {
-        let mut s = String::new();
-        for (key, value) in env {
-            s.push_str(&format!("{}={}\n", key, value));
-        }
-        self.0.set("Environment", &s);
+        // one variable per line, in a fixed order and without a trailing
+        // newline, which would be written as an empty continuation line
+        let mut vars = env
+            .iter()
+            .map(|(key, value)| format!("{}={}", key, value))
+            .collect::<Vec<_>>();
+        vars.sort();
+        self.0.set("Environment", &vars.join("\n"));
     }
 
     /// Get the list of installed build depends
